@@ -33,10 +33,10 @@ PLAN = {
             'thorough': [('nest', 12000), ('await_pos', None), ('fwd3', None), ('fwd', 3000), ('firstuse', None), ('life', None), ('hist_rand', 2000), ('cancel_cleanup', None)]},
     'C03': {'quick': [('nest', 500), ('await_pos', 192), ('recursion', None), ('errors', 120), ('fwd3', 150), ('hist', 150), ('par_timeout', 72), ('timeout_stray', None), ('timeout_rand', 100)],
             'thorough': [('nest', 12000), ('await_pos', None), ('recursion', None), ('errors', None), ('fwd3', None), ('fwd', 2000), ('hist', None), ('hist_rand', 3000), ('timeout_rand', 2000), ('par_timeout', None), ('timeout_par_rand', 2000), ('timeout_stray', None)]},
-    'C04': {'quick': [('await_pos', None), ('nest', 500), ('firstuse', None), ('fwd', 150), ('deep_timeout', None), ('await_after_stop', None)],
-            'thorough': [('await_pos', None), ('nest', 15000), ('firstuse', None), ('fwd', 3000), ('hist_rand', 2000), ('timeout_rand', 2000), ('await_after_stop', None)]},
-    'C05': {'quick': [('await_pos', None), ('nest', 500), ('firstuse', None), ('timeout', None), ('deep_timeout', None), ('hist_rand', 150), ('lock_wait', None)],
-            'thorough': [('await_pos', None), ('nest', 15000), ('firstuse', None), ('fwd', 3000), ('life', None), ('hist_rand', 2000), ('timeout', None), ('timeout_rand', 3000), ('lock_wait', None)]},
+    'C04': {'quick': [('await_pos', None), ('nest', 500), ('firstuse', None), ('fwd', 150), ('deep_timeout', None), ('await_after_stop', None), ('idle_target', None)],
+            'thorough': [('await_pos', None), ('nest', 15000), ('firstuse', None), ('fwd', 3000), ('hist_rand', 2000), ('timeout_rand', 2000), ('await_after_stop', None), ('idle_target', None)]},
+    'C05': {'quick': [('await_pos', None), ('nest', 500), ('firstuse', None), ('timeout', None), ('deep_timeout', None), ('hist_rand', 150), ('lock_wait', None), ('idle_target', None)],
+            'thorough': [('await_pos', None), ('nest', 15000), ('firstuse', None), ('fwd', 3000), ('life', None), ('hist_rand', 2000), ('timeout', None), ('timeout_rand', 3000), ('lock_wait', None), ('idle_target', None)]},
     'C06': {'quick': [('firstuse', None), ('nest', 500), ('idle_par', None), ('errors_par', None), ('await_pos', 192), ('fwd3', 150), ('life', 150), ('lock_wait', None), ('cancel_cleanup', None)],
             'thorough': [('firstuse', None), ('nest', 15000), ('idle_par', None), ('errors_par', None), ('await_pos', None), ('fwd3', None), ('fwd', 3000), ('life', None), ('timeout_rand', 2000), ('lock_wait', None), ('cancel_cleanup', None)]},
     'C07': {'quick': [('fwd3', None), ('fwd_deep', None), ('fwd', 300)],
@@ -55,8 +55,8 @@ PLAN = {
             'thorough': [('capacity', None), ('retry_dispatch', None), ('hist', None), ('hist_rand', 4000), ('life', None), ('life_rand', 3000)]},
     'C15': {'quick': [('life', None), ('idle_par', None), ('life_rand', 400), ('fwd', 200), ('timeout', 100), ('par_timeout', 72), ('idle_evict', None)],
             'thorough': [('life', None), ('idle_par', None), ('life_rand', 10000), ('fwd', 3000), ('timeout', None), ('nest', 4000), ('hist_rand', 2000), ('par_timeout', None), ('timeout_par_rand', 2000), ('idle_evict', None)]},
-    'C16': {'quick': [('life', None), ('life_rand', 400), ('stop_in_handler', None)],
-            'thorough': [('life', None), ('life_rand', 15000), ('stop_in_handler', None)]},
+    'C16': {'quick': [('life', None), ('life_rand', 400), ('stop_in_handler', None), ('stop_clear', None)],
+            'thorough': [('life', None), ('life_rand', 15000), ('stop_in_handler', None), ('stop_clear', None)]},
     'C17': {'quick': [('wal', 1200)],
             'thorough': [('wal', 20000)]},
     'C18': {'quick': [('expect', 800)],
